@@ -197,7 +197,7 @@ open AdaVerif.Model.ParseSpecial AdaVerif.Model.ParseValid AdaVerif.Lemmas.PV Ad
     `parser_with_base_partial`; the invariants the with-base theorem needs of the base record are theorems about parsed
     records: C19's `parse_inv` and `parse_noSlash`) -/
 theorem validation_only_is_parse (idna : Spec.Idna) (input : Bytes) (hid : ∀ d, HP.IdnaAt idna d)
-    (hclean : HS.bracketClean (schemeSpecial input) false (hostStart input) = true) :
+    (hclean : AdaVerif.Lemmas.BR.bracketOk (schemeSpecial input) (hostStart input) = true) :
     validationOnly idna none input = (Spec.parse idna input none).isSome := by
   unfold validationOnly
   rw [machineV_valid, PS.machine_spec idna input hid hclean]
@@ -205,9 +205,9 @@ theorem validation_only_is_parse (idna : Spec.Idna) (input : Bytes) (hid : ∀ d
 
 open AdaVerif.Model.ParseSpecial AdaVerif.Model.ParseValid AdaVerif.Lemmas.PV AdaVerif.Lemmas in
 theorem validation_only_is_parse_base (idna : Spec.Idna) (bi input : Bytes) (hid : ∀ d, HP.IdnaAt idna d)
-    (hcb : HS.bracketClean (schemeSpecial bi) false (hostStart bi) = true)
+    (hcb : AdaVerif.Lemmas.BR.bracketOk (schemeSpecial bi) (hostStart bi) = true)
     (hci : ∀ b, Spec.parse idna bi none = some b →
-      HS.bracketClean (hostStartB (UR.recOf b) input).1 false (hostStartB (UR.recOf b) input).2 = true) :
+      AdaVerif.Lemmas.BR.bracketOk (hostStartB (UR.recOf b) input).1 (hostStartB (UR.recOf b) input).2 = true) :
     validationOnly idna (some bi) input =
       match Spec.parse idna bi none with
       | none => false
